@@ -518,6 +518,16 @@ func (c *Cas) Ints(n int) []int {
 	return out
 }
 
+// IntZ draws a value below 1000; on every fourth visit of a check it is the zero value instead
+// (a unit or a combinator that special-cases the zero value of a non-nil-able type).
+func (c *Cas) IntZ() int {
+	a := c.R.IntN(1000)
+	if c.Rot%4 == 0 {
+		a = 0
+	}
+	return a
+}
+
 func (c *Cas) Seq() fp.Seq[int] {
 	s := SeqOf(c.R.IntN(6000))
 	c.Shape("seq:" + SeqShape(s))
@@ -572,9 +582,11 @@ func RunCheck(w *vrt.W, i int, p *Profile, ck Check, rot int) {
 	if r.IntN(4) == 0 {
 		c.FailAt = r.IntN(9)
 	}
+	Cur = c
 	w.Begin(i, ck.Name)
 	w.Guard(i, c.Witness, func() { ck.Run(c) })
 	w.Done(i)
+	Cur = nil
 	w.Hit(ck.Name)
 	w.Add("cases."+p.Pkg, 1)
 	w.Distinct(ck.Name + "|" + strings.Join(c.Shapes, ","))
